@@ -139,7 +139,9 @@ func (p Profile) fn(r *rand.Rand, maxIn, maxOut int, target bool) FuncSpec {
 		f.Out = append(f.Out, p.label(r, !target && r.Intn(3) == 0))
 	}
 	f.In = dedupe(f.In, true)
-	f.Out = dedupe(f.Out, false)
+	// (the wild profile also draws result lists with two type-only results of one type that differ in their subtype:
+	// only one of them can be delivered, but no consumer may ever be handed the other one's value)
+	f.Out = dedupe(f.Out, p.Name == "wild")
 	if f.Form == "pos" && plain(f.In) && len(f.In) > 0 && r.Intn(5) == 0 {
 		// positional parameters may repeat a type
 		f.In = append(f.In, f.In[r.Intn(len(f.In))])
